@@ -168,7 +168,7 @@ struct C17 : public Driver {
         p["histories"] = hist; p["reuse"] = gs.chance(1, 2);
         // a third of the runs: the document is parsed once and kept, and a numbering transformation that fails part-way (a count pattern
         // calling an unavailable function at one node) runs first on the same transformer and the same parsed source
-        if (gs.chance(1, 3)) { p["poison"] = true; p["poison_node"] = d.ids[gs.below(d.ids.size())]; p["poison_level"] = gs.chance(1, 2) ? "any" : "single"; }
+        if (gs.chance(1, 3)) { p["poison"] = true; p["poison_node"] = d.ids[gs.below(std::max<size_t>(1, d.ids.size() > 3 ? d.ids.size() - 3 : 1))]; p["poison_level"] = gs.chance(1, 2) ? "any" : "single"; }
         return p;
     }
 
@@ -190,7 +190,7 @@ struct C17 : public Driver {
             if (plan.boolean("poison")) {
                 if (makeSource(env, "parsed", plan.str("doc"), SrcFault(), kept)) pre = kept.ps;
                 if (pre) {
-                    std::string px = "<?xml version=\"1.0\"?><xsl:stylesheet version=\"1.0\" xmlns:xsl=\"http://www.w3.org/1999/XSL/Transform\" xmlns:nofn=\"urn:x-nofn\"><xsl:template match=\"/\"><out><xsl:for-each select=\"//*\"><o><xsl:number level=\"" + plan.str("poison_level", "any") + "\" count=\"*[not(@id = '" + plan.str("poison_node") + "') or nofn:none()]\"/></o></xsl:for-each></out></xsl:template></xsl:stylesheet>";
+                    std::string px = "<?xml version=\"1.0\"?><xsl:stylesheet version=\"1.0\" xmlns:xsl=\"http://www.w3.org/1999/XSL/Transform\" xmlns:nofn=\"urn:x-nofn\"><xsl:template match=\"/\"><out><xsl:for-each select=\"(//*)[position() &gt; last() - 2]\"><o><xsl:number level=\"" + plan.str("poison_level", "any") + "\" count=\"*[not(@id = '" + plan.str("poison_node") + "') or nofn:none()]\"/></o></xsl:for-each></out></xsl:template></xsl:stylesheet>";
                     XReq rq; rq.doc = plan.str("doc"); rq.xsl = px; rq.srcForm = "parsed"; SimSink sink; XformOut po = runTransform(env, rq, sink, pre);
                     res.count(po.ok() ? "poison:completed" : "fault:abort-inside-count-pattern"); tr.ev("poison st=" + std::to_string(po.status));
                 }
